@@ -44,10 +44,10 @@ def concretise(scs, lits) -> str:
         if ck == "function":
             out += [f"def f{i}({ps}): ...", ""]
         else:
-            recv = {"method": "self", "ctor": "self", "classmethod": "cls", "static": "", "starmethod": ""}[ck]
+            recv = {"method": "self", "ctor": "self", "classmethod": "cls", "static": "", "starmethod": "", "starctor": ""}[ck]
             full = ", ".join(x for x in (recv, ps) if x)
             deco = {"static": "    @staticmethod\n", "classmethod": "    @classmethod\n"}.get(ck, "")
-            name = "__init__" if ck == "ctor" else "m"
+            name = "__init__" if ck in ("ctor", "starctor") else "m"
             out += [f"class K{i}:", f"{deco}    def {name}({full}): ...", ""]
     return "\n".join(out)
 
@@ -66,7 +66,7 @@ def observe(sc, stubs: Stubs, idx) -> dict:
         if len(tops) != 1:
             return none
         cls = tops[0][1]
-        if ck == "ctor":
+        if ck in ("ctor", "starctor"):
             decl = cls
             fid = f"{PKG}/{MOD}/K{i}/__init__"
         else:
